@@ -537,6 +537,13 @@ def nondefault_params(item, diff_ops=None):
         w = item.get("wrap", list(WRAPM[0]))
         if list(w) != list(WRAPM[0]):
             out.append("wrap=" + w[0] + ("" if w[1] == "as-is" else "/" + w[1]) + ("" if w[2] == "const" else "/cond@" + w[2]))
+    if "spec" in item and "steps" not in item:
+        for nd in item["spec"]["nodes"]:
+            if diff_ops is None or nd["op"] in diff_ops:
+                for an, av in sorted((nd.get("a") or {}).items()):
+                    if isinstance(av, dict):
+                        av = abstract_value(av)
+                    out.append(f"{nd['op']}.{an}={av}".replace(" ", ""))
     if item.get("opset", 18) != 18:
         out.append(f"opset={item['opset']}")
     for k, v in sorted((item.get("opts") or {}).items()):
@@ -685,6 +692,6 @@ def root_cause_tag(item, comp, dsig):
         if c.op == "SplitToSequence" and "SplitToSequence" in rem:
             if "split" in c.roles and c.attrs.get("keepdims", 1) == 0 and "Squeeze" in add:
                 return "split_to_sequence|keepdims=0-with-split-input"
-            if mz.X_SHAPES[item["x"][0]][item["x"][1]][0].startswith("0x") and "Split" not in add:
+            if mz.X_SHAPES[item["x"][0]][item["x"][1]][0].startswith("0x") and "SequenceConstruct" in add:
                 return "split_to_sequence|size-0-axis"
     return None
